@@ -175,7 +175,8 @@ def loops_correspondence(ctx):
     count = 150 if ctx.is_quick else 2000
     for name, gen, fn in (("CoreSet", coreset_cases, "check_coreset"), ("ProbCover", probcover_cases, "check_probcover"),
                           ("Clue/DiscriminativeAL", oracle_loop_cases, "check_oracle_loop"), ("GreedySamplingX", gsx_cases, "check_gsx"),
-                          ("TypiClust", typiclust_cases, "check_typiclust"), ("Badge", badge_cases, "check_sampling")):
+                          ("TypiClust", typiclust_cases, "check_typiclust"), ("Badge", badge_cases, "check_sampling"),
+                          ("DropQuery", dropquery_cases, "check_oracle_loop")):
         terms, meta = gen(ctx, count)
         bad, err = ctx.coq_eval_cases("loop_" + fn, IMPORTS, fn, terms, chunk=100)
         if err:
@@ -520,4 +521,84 @@ def badge_cases(ctx, count):
         ctx.hist[f"badge:{cmode}:" + ("fallback" if any(not np.any(r > 0) for r in rec) else "weights")] += 1
         if k >= 2:
             ctx.nontriv(("badge", X.tobytes(), y.tobytes(), cmode, repr(rcd["candidates"]), bs, seed))
+    return terms, meta
+
+
+# ---------------------------------------------------------------------------------------------
+# DropQuery: the same masked oracle-row loop as Clue, with -inf for the candidates that were not pre-filtered.  A scripted
+# cluster algorithm records WHICH candidates it was given (rows carry their sample id) and returns scripted distances; the
+# dropout draws that precede the loop are replayed on the twin generator.
+NEG_INF_KEY = -1000000
+
+
+def dropquery_cases(ctx, count):
+    from sklearn.base import BaseEstimator
+    from skactiveml.pool import DropQuery
+    from . import poolreg as R
+    seen = []
+
+    class RecordingClusters(BaseEstimator):
+        def __init__(self, n_clusters=2, table=None):
+            self.n_clusters, self.table = n_clusters, table
+
+        def fit_transform(self, X, y=None, sample_weight=None):
+            ids = [int(round(v)) - 1 for v in np.asarray(X)[:, 0]]
+            seen.append(ids)
+            return np.asarray(self.table, dtype=float)[ids][:, :self.n_clusters]
+
+    rng = ctx.rng("dropquery")
+    terms, meta = [], []
+    for h in range(count):
+        n = int(rng.integers(3, 9))
+        X = np.column_stack([np.arange(1, n + 1, dtype=float), rng.integers(0, 3, size=n).astype(float)])
+        y = np.where(rng.random(n) < rng.choice([0.0, 0.3, 0.6]), float(rng.integers(0, 2)), np.nan)
+        if not np.isnan(y).any():
+            y[int(rng.integers(0, n))] = np.nan
+        cmode = str(rng.choice(["none", "idx"]))
+        if cmode == "none":
+            cand, mapping = None, [int(i) for i in np.flatnonzero(np.isnan(y))]
+        else:
+            cand = rng.integers(0, n, size=int(rng.integers(1, n + 2)))
+            mapping = sorted({int(i) for i in cand})
+        bs = int(rng.integers(1, len(mapping) + 3))
+        k = min(bs, len(mapping))
+        seed = int(rng.integers(0, 1000))
+        nvals = int(rng.choice([1, 2, 4]))
+        T = rng.integers(0, nvals, size=(n, max(k, 1))).astype(int)          # dist[sample, centroid]
+        ndrop = int(rng.choice([3, 5]))
+        mk = lambda: DropQuery(cluster_algo=RecordingClusters, cluster_algo_dict={"table": T.tolist()}, n_dropout_samples=ndrop, random_state=seed)
+        del seen[:]
+        with warnings.catch_warnings():
+            warnings.simplefilter("ignore")
+            try:
+                idx, ut = mk().query(X, y, clf=R._clf_alt([0, 1], seed), candidates=cand, batch_size=bs, return_utilities=True)
+                twin = mk()
+                twin._validate_data(X, y, cand, bs, True)
+            except Exception as e:
+                ctx.violation("DropQuery", "exception:" + type(e).__name__, repr(e)[:300],
+                              {"y": [None if v != v else v for v in y], "candidates": None if cand is None else np.asarray(cand).tolist(), "batch_size": bs, "seed": seed},
+                              what=f"DropQuery.query raised {type(e).__name__} with a scripted cluster algorithm")
+                continue
+        if len(seen) != 1:
+            continue
+        pre = set(seen[0])
+        for _ in range(ndrop):                                                   # the dropout masks drawn before the loop
+            twin.random_state_.choice([True, False], size=(len(mapping), X.shape[1]), p=[0.75, 0.25])
+        noises = [twin.random_state_.random(n) for _ in range(k)]
+        ut = np.asarray(ut, dtype=float)
+        rec = {"strategy": "DropQuery", "table": T.tolist(), "y": [None if v != v else v for v in y], "candidates_mode": cmode,
+               "candidates": None if cand is None else np.asarray(cand).tolist(), "prefiltered": sorted(pre), "batch_size": bs, "seed": seed,
+               "returned_indices": np.asarray(idx).tolist()}
+        if _judge(ctx, "DropQuery", idx, np.where(np.isinf(ut), -1e300, ut), mapping, n, k, rec):
+            continue
+        table = [[(-int(T[c, b]) if c in pre else NEG_INF_KEY) for c in mapping] for b in range(k)]
+        tab = listlit([listlit([f"(Some {zlit(v)})" for v in r]) for r in table])
+        rows = listlit([f"({natlit(int(p))}, {listlit(['None' if v != v else (f'(Some {zlit(NEG_INF_KEY)})' if v == -np.inf else f'(Some {zlit(int(v))})') for v in ut[r]])})"
+                        for r, p in enumerate(np.asarray(idx).ravel())])
+        terms.append(f"(false, {natlit(n)}, {natlist(mapping)}, {tab}, {natlit(k)}, {_nz(noises)}, {rows})")
+        meta.append(rec)
+        ctx.count("DropQuery_loop_correspondence")
+        ctx.hist[f"dropquery:{cmode}:values{nvals}:{'all' if len(pre) == len(mapping) else 'prefiltered'}"] += 1
+        if k >= 2:
+            ctx.nontriv(("dropquery", T.tobytes(), y.tobytes(), cmode, repr(rec["candidates"]), bs, seed))
     return terms, meta
